@@ -211,12 +211,21 @@ func (p *Path) choose(alts []*Term, label string) int {
 		p.decLabels = map[string]int{}
 	}
 	p.decLabels[fmt.Sprintf("%s/%d-of-%d", label, len(feas), len(alts))]++
+	if decSites && len(feas) > 1 && p.cur != nil && p.cur.top != nil {
+		site := p.cur.top.info.name
+		if c := p.cur.top.caller; c != nil {
+			site += " <- " + c.info.name
+		}
+		p.decLabels["site: "+label+" in "+site]++
+	}
 	c := feas[0]
 	p.prefix = append(p.prefix, c)
 	p.pos++
 	p.assume(alts[c])
 	return c
 }
+
+var decSites = os.Getenv("VERIF_DECSITES") != ""
 
 func (p *Path) branch(c *Term) bool {
 	if c.IsConst() {
